@@ -39,6 +39,10 @@ def build_doc(c):
             d = {"area": float(m["area_f"])}
             if m["c"] is not None:
                 d["center"] = [X.num(m["c"][0] * u / 2), X.num(m["c"][1] * u / 2)]
+            if m.get("prov"):
+                # a provisional rectangle left by an earlier stage, smaller than the module's area (the declared area is what counts)
+                side = math.sqrt(float(m["area_f"])) * m["prov"][2] / 8
+                d["rectangles"] = [[X.num(m["prov"][0] * u / 2), X.num(m["prov"][1] * u / 2), side, side]]
         elif m["kind"] == "hard":
             d = {"hard": True, "rectangles": [D.rect_entry(r, unit) for r in m["rects"]]}
         elif m["kind"] == "pin":  # a fixed terminal (I/O pin), typically on the border of the die
@@ -104,8 +108,8 @@ def run_spectral(c):
             cx = sum(r[0] * r[2] * r[3] for r in rs) / A
             cy = sum(r[1] * r[2] * r[3] for r in rs) / A
         else:
-            if rs != rs0:
-                raise Violation("%s: rectangles of soft module %s changed" % (what, m.name), "soft-rectangles-changed")
+            if rs != rs0 and not rs0:
+                raise Violation("%s: soft module %s acquired rectangles" % (what, m.name), "soft-rectangles-changed")
             if m.center is None:
                 raise Violation("%s: soft module %s has no centre" % (what, m.name), "no-centre")
             cx, cy = m.center.x, m.center.y
@@ -118,6 +122,7 @@ def run_spectral(c):
     if [([b.name for b in e.modules], e.weight) for e in sp.edges] != nets0:
         raise Violation("%s: nets changed" % what, "nets-changed")
     kinds = [m["kind"] for m in c["modules"]]
+    prov = any(m.get("prov") for m in c["modules"])
     cls = ["trials=%d" % trials]
     if "hard" in kinds:
         cls.append("hard-movable")
@@ -127,6 +132,8 @@ def run_spectral(c):
         cls.append("fixed-pin-on-left-or-bottom-border")
     if c.get("tight"):
         cls.append("tight-fit")
+    if prov:
+        cls.append("soft-module-with-a-provisional-rectangle")
     if max(W, H) >= 5 * min(W, H):
         cls.append("elongated-die")
     return dict(nt=big, cls=cls)
@@ -161,6 +168,10 @@ def design_s(draw):
             m = dict(name="M%d" % i, kind="soft", area_f=math.pi * radius * radius, c=None)
             if trials == 0 or draw(st.booleans()):
                 m["c"] = [draw(_i(0, 2 * W)), draw(_i(0, 2 * H))]
+            if draw(_i(0, 4)) == 0:
+                m["prov"] = [draw(_i(1, 2 * W - 1)), draw(_i(1, 2 * H - 1)), draw(_i(1, 6))]
+                if m["c"] is not None:
+                    m["c"] = m["prov"][:2]
         else:
             lim = max(1, short // 3)
             if draw(st.booleans()):
@@ -222,4 +233,4 @@ def general_position(mods, unit):
 
 def subchecks():
     return [Sub("placements", run_spectral, strategy=design_s(), n_quick=1400, n_thorough=40000, shrink_quick=True,
-                required=("trials=0", "trials=1", "trials=5", "hard-movable", "with-fixed", "tight-fit", "elongated-die", "fixed-pin-on-left-or-bottom-border"))]
+                required=("trials=0", "trials=1", "trials=5", "hard-movable", "with-fixed", "tight-fit", "elongated-die", "fixed-pin-on-left-or-bottom-border", "soft-module-with-a-provisional-rectangle"))]
